@@ -1,5 +1,6 @@
 use crate::{Ctx, Out};
 
+pub mod c02;
 pub mod c17;
 pub mod c18;
 pub mod c18_impls;
@@ -10,6 +11,7 @@ pub mod c27;
 
 pub fn run(ctx: &Ctx, out: &mut Out) -> bool {
     match ctx.prop.as_str() {
+        "C02" => c02::run(ctx, out),
         "C17" => c17::run(ctx, out),
         "C18" => c18::run(ctx, out),
         "C19" => c19::run(ctx, out),
